@@ -15,7 +15,7 @@ CHECKS = {
              "index / arithmetic / unwrap site is discharged by a dominating guard on the same receiver or an interval proof "
              "(totality); (T1) the BigSize reader's marker->width table equals the writer's range->(marker,width) table, ranges "
              "partition u64 and are minimal, big-endian on both sides; (L1) record order/content discipline of decoder and "
-             "encoder; (L2) entry points delegate; (U) tu64 clauses; (G) get(typ) selects by type equality over the whole list. Not an enumeration of byte strings.",
+             "encoder; (L2) entry points delegate; (U) tu64 clauses; (G) get(typ) selects by type equality over the whole list; the decoder stops only with at most one stray byte left; the encoder's buffer starts empty. Not an enumeration of byte strings.",
         note="Not decided: decode(encode(x)) == x by enumeration (follows from T1+L1 given bytes' primitives); non-minimal input "
              "encodings are re-encoded minimally.",
         design="5/C18"),
@@ -24,14 +24,14 @@ CHECKS = {
         text="Decides on MIR: (X1) every arithmetic op of the fee predicate discharged by intervals over the full input ranges, None arms of checked "
              "ops return false, in both overflow configurations (thorough); (X2) the returned comparison's operator tree, checked ops read as exact on "
              "their Some paths, equals total >= amount + base + floor(amount*ppm/10^6); (T) field widths; (F) the failure encoder's byte layout per "
-             "variant equals 0x20,26||be32||be32||be16 and the two constant codes; (P) the policy payload is HtlcManagerParams::routing_policy; (G) gates; (L) without stored state the lifecycle waits the configured timeout itself before its select, so a queued rejection is delivered whenever that timeout is non-zero (C11-T1/T4).",
+             "variant equals 0x20,26||be32||be32||be16 and the two constant codes; (P) the policy payload is HtlcManagerParams::routing_policy; (G) gates; (P) no field of the params/policy is modified after construction; (L) without stored state the lifecycle waits the configured timeout itself before its select, so a queued rejection is delivered whenever that timeout is non-zero (C11-T1/T4).",
         note="Exactness over u64 x u64 x u32 x u32 follows from X1+X2, it is not enumerated. Only cmp(total, sum) / cmp(total-amount, sum) shapes are accepted as normal form.",
         design="5/C12"),
     "C02": dict(
         technique="CFG path/typestate rules over the lifecycle coroutine's MIR + store write-record extraction",
         text="Decides, for every path of the lifecycle coroutine, the typestate clauses S1-S6 (fetch first; Pending => wait first; wait error never fails; "
              "mark_failed only after Ok(None)/pay Err and required Ok before collecting; fail requests only pre-payment; after pay fail only on Err) and S7 "
-             "(generation-guarded Free write in every Datastore impl); S8 (a classified HTLC is answered only through the lifecycle), S9 (provider clauses, incl. no clock on the wait path), S10 (no per-HTLC failure answered directly before the lifecycle is consulted).",
+             "(generation-guarded Free write in every Datastore impl); S8 (a classified HTLC is answered only through the lifecycle), S9 (provider clauses, incl. no clock on the wait path), S10 (no per-HTLC failure answered directly before the lifecycle is consulted), S11 (a stored Pending record is reported as Pending: fetch mapping).",
         note="Not decided: the schedule/crash-point space as executions; node-side pay state after an RPC connection error.",
         design="5/C02"),
     "C05": dict(
@@ -52,7 +52,7 @@ CHECKS = {
         technique="effect-sequence typestate: explicit fixed point over abstract stored images using write records extracted from MIR",
         text="Extracts (key kind, mode, generation guard, payload) of every datastore write per Datastore method, explores all images reachable by crashes / "
              "rejected / applied-but-failed writes, and requires every fault-free recovery write to be satisfiable on every reachable image; must-create keys "
-             "must be clock-fresh; (E) every lifecycle path, failed-write exits included, answers exactly once and thereby removes the table entry; (V) wait_payment, on which the recovery of a stored Pending state hangs, honours C15-V* (a failed part is neither an error nor `nothing pending` while another part lives).",
+             "must be clock-fresh; (E) every lifecycle path, failed-write exits included, answers exactly once and thereby removes the table entry; (V) wait_payment, on which the recovery of a stored Pending state hangs, honours C15-V* (a failed part is neither an error nor `nothing pending` while another part lives); (B) nothing blocks while the table lock is held (C14-L1), so a lifecycle can always answer and remove its entry.",
         note="Assumes documented CLN datastore mode semantics; the lifecycle's choice of recovery call per stored state is decided by C02-S2/S4, C05-A2 (re-checked here).",
         design="5/C09"),
     "C11": dict(
@@ -60,7 +60,7 @@ CHECKS = {
         text="Decides T1 (sleep operand is mpp_timeout or mpp_timeout.saturating_sub(age of the stored attempt); Pending reaches the select only through that "
              "computation), T2 (is_zero guard => immediate 0x2019, no pay), T3 (timer arm answers 0x2019 once, cannot pay/write), T4 (nothing answered before "
              "the select on the Free arm; operands are exactly timer/fail/ready), T5 (option wiring), T6 (the timer is armed once: the sleep future is not "
-             "created inside a loop), T7 (the stored-state lookup before the clock starts cannot queue behind other payments: no connection/lock/semaphore shared across hashes).",
+             "created inside a loop), T7 (the stored-state lookup before the clock starts cannot queue behind other payments: no connection/lock/semaphore shared across hashes), T8 (nothing blocks under the table lock the timer arm needs).",
         note="Not decided: wall-clock behaviour, tokio timer accuracy.",
         design="5/C11"),
     "C01": dict(
@@ -86,7 +86,7 @@ CHECKS = {
         technique="panic-site discipline (guards/intervals/origins) over the handler scope + exactly-once path counting + lock-scope/latch rules (MIR)",
         text="Decides P1 (every panic-capable site in handler scope discharged), P2 (exactly one answer per lifecycle path; effect futures awaited), P3 (complete "
              "drain), P4/P5 (sender always registered; add-listener answers or stores), P6 (only latched sends awaited under the table lock; capacities>=1), "
-             "P7 (timer bound, C11), P8 (hook wrapper). One known finding: D7 (todo!() on wait_payment error while Pending).",
+             "P7 (timer bound, C11; the mpp-timeout option is what reaches params.mpp_timeout), P8 (hook wrapper). One known finding: D7 (todo!() on wait_payment error while Pending).",
         note="Not decided: termination of awaited RPCs, fairness, 'eventually'. Named exceptions are listed with reasons in rules/panics.py.", design="5/C06"),
     "C07": dict(
         technique="drain-loop structure rule + gate ordering/guard classification + select-arm provenance (MIR)",
@@ -96,7 +96,7 @@ CHECKS = {
     "C10": dict(
         technique="edge-guard rules + per-definition arm classification of the amount + iterator/selector shape of the route-hint gate (MIR)",
         text="Decides H (hash gate), S (signature gate; payee/bolt11/invoice provenance; record path 16->33001), A (amount arm table per reaching definition; over-long "
-             "amount field = absent), R (last hop of any hint vs local key; Trampoline only via no-hint or allowed; else Fail), C (unusable metadata => continue), L (records are looked up by type equality over the whole list, no ordering assumed), X (every TrampolineInfo the extractor returns is built there from this request).",
+             "amount field = absent), R (last hop of any hint vs local key; Trampoline only via no-hint or allowed; else Fail), C (unusable metadata => continue), L (records are looked up by type equality over the whole list, no ordering assumed), X (every TrampolineInfo the extractor returns is built there from this request), E (parts whose info - amount included - differs are rejected by a comparison that looks at every field).",
         note="Not decided: lightning-invoice's parser/signature recovery (trusted).", design="5/C10"),
     "C13": dict(
         technique="MAY-effect summaries over the call graph + await-freedom of pre-lock paths + rewrite provenance (MIR)",
@@ -112,7 +112,7 @@ CHECKS = {
     "C15": dict(
         technique="dominance/ordering of awaited RPCs + switch-table extraction of tolerated error codes + loop-shape rule (MIR)",
         text="Decides V1 (preimage provenance), V2 (Ok(None) only after the stream of one waitsendpay per PENDING-listed part is exhausted; no skip/break/timeout), V3 (tolerated "
-             "codes exactly 202/203/204/208/209; nothing else continues or becomes Ok), V4 (PENDING listing returns before the COMPLETE query is issued), V5 (filters), V6 (no tokio::time primitive on the wait path, the ClnRpc implementation of listsendpays/waitsendpay included).",
+             "codes exactly 202/203/204/208/209; nothing else continues or becomes Ok), V4 (PENDING listing returns before the COMPLETE query is issued), V5 (filters), V6 (no tokio::time primitive on the wait path, the ClnRpc implementation of listsendpays/waitsendpay included), V7 (the ClnRpc implementation hands the node's error on with its numeric code: never through anyhow / RpcError::General).",
         note="Not decided: parts created after the snapshot by a pay still running in the node.", design="5/C15"),
     "C16": dict(
         technique="exit classification of pay() by dominating match arms (status-dispatch table) (MIR)",
@@ -123,18 +123,18 @@ CHECKS = {
         technique="ADT statelessness table + consume-exactly-once rule on decoders + exactly-once send counting + cancel-safety/lock-scope rules on the driver (MIR)",
         text="Decides D1 (codecs have no state), D2 (line decoder: Ok(None) leaves the buffer, Some consumes split_to(offset+2) with a whole-buffer search for two newlines; "
              "JSON layers call the inner decoder once), R1 (per-request task replies exactly once, id = request id, one of result/error), R2 (the raced reader future awaits "
-             "only FramedRead::next; handlers behind spawn), R3 (one FramedRead for handshake and driver loop, never taken apart), W (all output through the single guarded FramedWrite, awaited under the guard, not raced; frame = text+2 newlines; "
+             "only FramedRead::next; handlers behind spawn), R3 (one FramedRead for handshake and driver loop, never taken apart), T (request ids are carried as arbitrary JSON values), W (all output through the single guarded FramedWrite, awaited under the guard, not raced; frame = text+2 newlines; "
              "no other stdout writes), P (panic discipline on codec/driver/logging).",
         note="Not decided: tokio_util Framed* internals; the node's framing.", design="5/C17"),
     "C19": dict(
         technique="def-use provenance from option constants to parameter sinks through checked conversions + registered/read set comparison + dominance of the init reply (MIR)",
         text="Decides W (each sink is cp.option(expected option) via `?`/checked TryInto to the declared width/from_secs/Not only), R (registered superset of read), O (start only when policy "
-             "delta > safety delta, after all conversions), C (retry_for saturating at u16::MAX, forwarded; cltv_delta reaches the max-delay formula), D (one policy aggregate).",
+             "delta > safety delta, after all conversions), C (retry_for saturating at u16::MAX, forwarded; cltv_delta reaches the max-delay formula), D (one policy aggregate), I (params and policy are never modified after construction).",
         note="Not decided: CLN's parsing of option strings; handle_init's as_i64().unwrap() (pre-init, outside handler scope).", design="5/C19"),
     "C20": dict(
         technique="who-writes rule through the height guard + dominating comparison + loop-exit reachability on the poll loop (MIR)",
         text="Decides W (single monotone write under one guard region without await), S (sources: getinfo.blockheight and block_added.height reach the cell only via the update fn; provider "
-             "returns the cell), C (one cell: created once, the field holding it never re-assigned), L (loop exits only via shutdown; poll results continue; constant positive interval; spawned after a successful initial poll), H (subscription wiring).",
+             "returns the cell), C (one cell: created once, the field holding it never re-assigned), F (every get_info of the ClnRpc implementation asks the node: no cached reply), L (loop exits only via shutdown; poll results continue; constant positive interval; spawned after a successful initial poll), H (subscription wiring).",
         note="Not decided: the wall-clock bound 'within one interval'.", design="5/C20"),
 }
 
